@@ -188,6 +188,23 @@ class AggHarness:
             return [(v.id, rid, name, v.tick_time, v.value) for (v, name, rid) in s.execute(q).all()]
 
 
+def warm_up() -> None:
+    """Import the aggregator, configure the ORM mappers and run every handler once, outside any per-case time
+    limit (a SIGALRM landing inside SQLAlchemy's mapper configuration leaves the mappers unusable for the whole
+    process)."""
+    h = AggHarness()
+    h.register()
+    h.uod_info(["warm"], 1.0)
+    h.run_started("warm-up")
+    h.tags_updated([("warm", 1, 1.0)], "warm-up")
+    h.error_log([("warm", 1, 1.0)])
+    h.disconnect()
+    h.register()
+    h.run_stopped("warm-up")
+    h.plot_log_rows(), h.recent_run_rows(), h.value_rows(), h.stored_error_log("warm-up")
+    AggHarness()        # leaves the tables empty
+
+
 class Ordinals:
     """first-occurrence ordinals for opaque ids (uuids)"""
 
